@@ -155,7 +155,11 @@ def resHeadersEol (b : UInt8) (lfcr : Bool) (c : Conn) : Except Rc (Conn × Bool
     -- LF
     let (d, nb) := c.out.peekSet
     let c := { c with out := d }
-    if nb == some CR then
+    -- htp_connp_res_lf_completes_crlf: this LF is the first byte of the chunk and the buffered part of the line ends in CR
+    -- (S1, repaired in /repo: such a LF used to open an LF-CR line end that swallowed a following CR)
+    let completesCrlf := c.out.read - c.out.consume == 1 &&
+      (match c.out.buf with | some b => b.getLast? == some CR | none => false)
+    if nb == some CR && !completesCrlf then
       match c.out.copyByte with
       | none => .error .dataBuffer
       | some (d, _) => .ok ({ c with out := d }, true, false, false)
